@@ -184,4 +184,7 @@ def run(ctx):
     for cfg in ("K1", "K2", "K3"):
         crate = ctx.crate(cfg)
         common.borrow_rules(rep, lambda: c03.check_import(cfg, crate, rep), "C03.", "C16.import")
+        # the subject public key inside the to-be-signed data is the key object's own public key in every build (a remote
+        # key's bytes are written exactly as the signer reports them: the crypto-less build has nothing else to go by)
+        c11.check_pub(cfg, crate, rep, rule="C16.pub")
     matrix(ctx, rep)
